@@ -92,13 +92,35 @@ def exact_distributions(cs):
         shutil.rmtree(tmp, ignore_errors=True)
 
 
+def embed(ops, width, where):
+    """the same circuit inside a register of `width` qubits whose other qubits stay |0> and are never touched: logical qubit j of the
+    circuit lives at index where[j]. Untouched |0> qubits are a tensor factor (QSim.AllocPreserves, the locality of every gate,
+    measurement and reset - all checked by TLC on the small models), so the joint distribution of the measured bits is unchanged."""
+    out = [("alloc", 0, 0)] * width
+    for g, a, b in ops:
+        if g == "alloc":
+            continue
+        out.append((g, where[a], where[b] if g == "cx" else 0))
+    return out
+
+
 def run(tier):
     """returns (stats, violations[{property, what, ...}])"""
     cs = cases()
     exact, states = exact_distributions(cs)
     shots = 40000 if tier == "quick" else 200000
+    # wide layouts of three circuits: their qubits sit at the top and at the bottom of a 13- / 14-qubit register
+    wide = {}
+    for nm, width, where in (("two pairs: reset a, measure c, then the partners", 13, {0: 12, 1: 0, 2: 5, 3: 11}),
+                             ("ghz: reset one, measure the others, re-prepare", 14, {0: 13, 1: 12, 2: 1}),
+                             ("entangle, reset, entangle again", 13, {0: 0, 1: 12, 2: 10})):
+        wn = nm + " [embedded in %d qubits at %s]" % (width, sorted(where.values()))
+        wide[wn] = embed(cs[nm], width, where)
+        exact[wn] = exact[nm]
+    cs = dict(cs)
+    cs.update(wide)
     names = sorted(cs)
-    jobs = [{"id": i, "src": render(cs[nm]), "shots": shots, "gc": "none", "timeout_ms": 600000} for i, nm in enumerate(names)]
+    jobs = [{"id": i, "src": render(cs[nm]), "shots": shots if nm not in wide else shots // 10, "gc": "none", "timeout_ms": 600000} for i, nm in enumerate(names)]
     res = runner.run_jobs(jobs, procs=len(jobs), per_job_timeout=900)
     viol = []
     tvs = {}
@@ -107,6 +129,7 @@ def run(tier):
         has_reset = any(g == "reset" for g, _, _ in cs[nm])
         # a circuit with resets shows the joint law of reset branches AND measurement outcomes: a deviation concerns both properties
         prop = "C04,C02" if has_reset else "C02"
+        shots = jobs[i]["shots"]
         if r["status"] != "ok" or len(r.get("shots", [])) != shots:
             viol.append({"property": prop, "what": "circuit '%s': %d-shot run ended with %s %s" % (nm, shots, r["status"], r.get("what", "")), "program": jobs[i]["src"]})
             continue
